@@ -1269,6 +1269,7 @@ func suiteBridge(o *Out, thorough bool, seed int64) {
 		}
 		o.Stat("non-function-callees-with-effects")
 	}
+	formatOracle(o)
 	// exhaustive: every signature with 0..1 parameters (x ctx x variadic) x every argument list of length 0..2
 	for _, ctx := range []bool{false, true} {
 		for _, variadic := range []bool{false, true} {
@@ -1855,4 +1856,76 @@ func passThroughOracle(o *Out) {
 		}
 	}
 	o.Stat("pass-through identity")
+}
+
+// formatOracle: "anything to string by formatting" for the Go values whose text the model does not render (Go floats
+// of both widths inside arrays and maps, times, structs, typed slices and maps, pointers to structs): the text that
+// reaches a string operand, toString and a string parameter is Go's %v of the value.
+type fmtRow struct {
+	Name  string
+	Score float64
+	When  time.Time
+	tags  []string
+}
+
+func formatOracle(o *Out) {
+	utc := time.Date(2024, 2, 5, 3, 7, 9, 12345600, time.UTC)
+	zoned := utc.In(time.FixedZone("X", 19800))
+	vals := map[string]interface{}{
+		"f64s": []interface{}{0.1, 1e21, 1e20, 1e-5, 0.0001, 1234567.0, 123456.0, -0.0, math.Inf(1), math.NaN(), 5e-324, 1.7976931348623157e308},
+		"f32s": []interface{}{float32(0.1), float32(16777217), float32(1e10), float32(3.4028235e38), float32(1e-45)},
+		"mixed": map[string]interface{}{"f": 2.5, "g": float32(2.5), "i": int8(-3), "u": uint64(1 << 63), "t": utc, "n": nil, "s": "x y", "b": false},
+		"times": []interface{}{utc, zoned}, "tf": []float64{0.1, 2, 1e6}, "tf32": []float32{0.1, 2}, "tm": map[string]float64{"b": 1.5, "a": 1e7},
+		"row": fmtRow{"r", 0.5, utc, []string{"a", "b"}}, "rows": []fmtRow{{"r", 1e6, zoned, nil}}, "prow": &fmtRow{"p", 3, utc, nil}, "when": utc, "zoned": zoned,
+		"nested": []interface{}{[]interface{}{1.5, []float32{0.25}}, map[string]interface{}{"k": []interface{}{1e7}}}, "cplx": []interface{}{int16(7), "", " ", true},
+	}
+	var got []string
+	data := map[string]interface{}{"rec": func(s string) (bool, error) { got = append(got, s); return true, nil }}
+	for k, v := range vals {
+		data[k] = v
+	}
+	run := func(text string) (interface{}, error, bool) {
+		src, err := formula.ParseSourceCode([]byte(text))
+		if err != nil {
+			return nil, err, false
+		}
+		r := formula.NewRunner()
+		r.SetThis(data)
+		var v interface{}
+		pan, _ := protect(func() { v, err = r.Resolve(context.Background(), src.Expression) })
+		return v, err, pan
+	}
+	for k, v := range vals {
+		want := fmt.Sprintf("%v", v)
+		for _, shape := range []string{"'' + %s", "toString(%s)", "'<' + %s + '>'", "'' - %s"} {
+			text := fmt.Sprintf(shape, k)
+			line := "NOP\tformat\t" + hx([]byte(text))
+			o.Case(line, "-", true)
+			res, err, pan := run(text)
+			w := want
+			if strings.HasPrefix(shape, "'<'") {
+				w = "<" + want + ">"
+			}
+			if pan || err != nil || res != w {
+				o.Fail(line, fmt.Sprintf("%q is not the formatted value: %#v (error %v), required %q", text, res, err, w))
+			}
+		}
+		got = nil
+		text := "rec(" + k + ")"
+		line := "NOP\tformat\t" + hx([]byte(text))
+		o.Case(line, "-", true)
+		if _, err, pan := run(text); pan || err != nil || len(got) != 1 || got[0] != want {
+			o.Fail(line, fmt.Sprintf("the string parameter of %q did not receive the formatted value: %q (error %v), required %q", text, got, err, want))
+		}
+		for _, cmp := range []string{"%s == w", "w == %s"} {
+			data["w"] = want
+			text := fmt.Sprintf(cmp, k)
+			line := "NOP\tformat\t" + hx([]byte(text))
+			o.Case(line, "-", true)
+			if res, err, pan := run(text); !pan && err == nil && strings.HasPrefix(cmp, "w") && res != true {
+				o.Fail(line, fmt.Sprintf("%q: a string equals a value exactly when it equals its formatted text (%q): %v", text, want, res))
+			}
+		}
+	}
+	o.Stat("format oracle")
 }
